@@ -228,10 +228,12 @@ def fuzz_stage(run, quick):
     except Exception as e:  # optional tool: recorded, not an error
         run.extra["atheris"] = f"unavailable: {e!r}"[:120]
         return
+    # the seeded corpus (real page fragments) makes executions ~10x slower
     if quick:
-        jobs = [(0, run.seed, 12000, False), (1, run.seed, 12000, True)]
+        jobs = [(0, run.seed, 12000, False), (1, run.seed, 2500, True)]
     else:
-        jobs = [(i, run.seed, 400000, i % 2 == 1) for i in range(8)]
+        jobs = [(i, run.seed, 80000 if i % 2 else 400000, i % 2 == 1)
+                for i in range(8)]
     res = par.map_shards(_fuzz_campaign, [(j,) for j in jobs],
                          min(len(jobs), par.nprocs(run.tier)))
     total = sum(r["runs"] for r in res)
